@@ -440,6 +440,14 @@ class C06(Check):
         specs.append(("designed/volcurve-clamp", K.volcurve_clamp_spec()))
         specs.append(("designed/curve-ends-at-max", K.curve_end_at_limit_spec("max")))
         specs.append(("designed/curve-starts-at-min", K.curve_end_at_limit_spec("min")))
+        specs.append(("designed/reservoir-head-pattern-start", K.reservoir_pattern_spec()))
+        for mk in (K.overflow_spec, K.curve_end_at_limit_spec, K.reservoir_pattern_spec):
+            sp = mk()
+            sp["options"]["hw_approx"] = "piecewise"
+            specs.append(("designed/piecewise-%s" % mk.__name__, sp))
+        pw = K.priority_presolve_spec(3, "min")
+        pw["options"]["hw_approx"] = "piecewise"
+        specs.append(("designed/piecewise-min", pw))
         specs.append(("designed/overflow-flag", K.overflow_spec(True)))
         for attr in ("min_level", "max_level", "elevation"):
             specs.append(("designed/rerun-same-simulator-%s" % attr, K.rerun_edit_spec(attr, False)))
